@@ -23,7 +23,7 @@ ASSUMPTIONS = [
     "automatic cadence: rule 'before each step and once after the last one: if next <= t then next += interval, snapshot'",
 ]
 CLASSES = ["history/lrescale", "history/t_equals_first", "history/vanish", "history/appear", "history/shrink", "history/grow", "history/N0",
-           "history/switch", "history/variation", "history/reset"]
+           "history/switch", "history/variation", "history/reset", "history/poke_only"]
 
 SETTINGS = [("G", [1.0, 0.5, 39.47]), ("softening", [0.0, 1e-3]), ("ri_whfast.safe_mode", [0, 1]),
             ("ri_whfast.corrector", [0, 3, 11]), ("ri_ias15.epsilon", [1e-9, 1e-6]),
@@ -48,6 +48,9 @@ op = st.one_of(
     st.tuples(st.just("lrescale"), st.sampled_from([-1.0, 3.5, 0.0])),
     st.tuples(st.just("rewind")),
     st.tuples(st.just("integrate_back")),
+    # edit one member of one particle in place (name it, change its mass or size, ...); poking the same member of
+    # the same particle again restores the original value
+    st.tuples(st.just("poke"), st.sampled_from(["hash", "hash", "m", "r", "x", "vz", "last_collision"]), st.integers(0, 3)),
     st.tuples(st.just("snap")),
     st.tuples(st.just("snap")),
     st.tuples(st.just("snap")),
@@ -63,6 +66,10 @@ SKELETONS = [
     [("steps", 1), ("snap",), ("remove_all",), ("snap",), ("add", _far), ("add", _far), ("steps", 2), ("snap",)],
     [("snap",), ("steps", 3), ("reset",), ("snap",), ("steps", 2), ("snap",)],
     [("steps", 2), ("snap",), ("rewind",), ("snap",), ("steps", 1), ("snap",)],
+    # a snapshot that differs from the first one in a single member of a single particle, and one that is equal to it again
+    [("snap",), ("poke", "hash", 1), ("snap",), ("poke", "hash", 1), ("snap",), ("steps", 1), ("snap",)],
+    [("snap",), ("poke", "r", 0), ("snap",), ("poke", "last_collision", 1), ("snap",), ("poke", "m", 1), ("snap",)],
+    [("steps", 2), ("snap",), ("poke", "hash", 0), ("poke", "hash", 2), ("snap",), ("steps", 1), ("snap",)],
 ]
 
 history_case = st.fixed_dictionaries({
@@ -182,8 +189,14 @@ def run_history(case, ctx):
         if budget[0] > 3000:
             sim.stop()
     sim.heartbeat = limiter
+    poked = {}
+    since_snap = []
     for o in case["ops"]:
         kind = o[0]
+        if kind not in ("snap", "poke"):
+            since_snap.append(kind)
+            if kind in ("add", "remove", "remove_all"):
+                poked.clear()
         try:
             if kind == "steps":
                 if sim.N > 0:   # stepping an empty simulation directly is not a documented use (WHFast dereferences particle 0)
@@ -253,7 +266,32 @@ def run_history(case, ctx):
                 budget[0] = 0
                 sim.integrate(model[0][0])   # there and back: exactly the time of the first snapshot
                 classes.add("t_equals_first")
+            elif kind == "poke" and sim.N > 0 and not has_var:
+                settle(sim)
+                i = o[2] % sim.N
+                key = (o[1], i, sim.N)
+                pt = sim.particles[i]
+                if key in poked:
+                    val = poked.pop(key)
+                elif o[1] == "hash":
+                    poked[key] = pt.hash.value
+                    val = 1000 + 7 * len(model) + i
+                else:
+                    cur = getattr(pt, o[1])
+                    poked[key] = cur
+                    val = {"m": cur * 2 + 1e-9, "r": cur + 0.01 * (i + 1), "x": cur + 1e-3, "vz": cur + 1e-4,
+                           "last_collision": cur + 1.5}[o[1]]
+                if o[1] == "hash":
+                    import ctypes
+                    pt.hash = ctypes.c_uint32(val)
+                else:
+                    setattr(pt, o[1], val)
+                since_snap.append("poke")
+                continue
             elif kind == "snap":
+                if model and since_snap and set(since_snap) == {"poke"}:
+                    classes.add("poke_only")
+                since_snap = []
                 m = rb.smap(sim)
                 t = sim.t
                 sim.save_to_file(path)
@@ -269,7 +307,7 @@ def run_history(case, ctx):
             ctx.cls("op_error:" + kind)
     for c in classes:
         ctx.cls(c)
-    if len(model) >= 2 and classes & {"vanish", "appear", "shrink", "grow", "switch"}:
+    if len(model) >= 2 and classes & {"vanish", "appear", "shrink", "grow", "switch", "poke_only"}:
         ctx.nontrivial()
     if os.path.exists(path):
         os.unlink(path)
